@@ -232,10 +232,30 @@ def shrink_candidates(inp):
 MANIFEST = {
     "level_claimed": {
         "category": "proof",
-        "text": "see coq/C13/README.md",
+        "text": ("Coq refinement theorem C13_period_tracks_schedule: from every Consistent state and for EVERY history of "
+                 "consecutive day-epoch ends, toggles (by anybody), parameter edits keeping EpochsPerPeriod/MaxPeriod and other "
+                 "identifiers' epoch ends, the effects of the modelled AfterEpochEnd / MintAndAllocateInflation / "
+                 "ToggleInflation / EditInflationParams code (explicit uint64/int64 roll-over test, LegacyDec arithmetic, "
+                 "collections.Sequence) equal, op by op, those of the closed-form schedule: the (c+1)-th enabled day epoch mints "
+                 "floor(polynomial(floor(c/EPP))*10^6/EPP), nothing from MaxPeriod on, disabled epochs mint nothing and do not "
+                 "advance c, staking/community get the floors of their proportions, the sudo root the remainder, the module "
+                 "account ends empty, CurrentPeriod = min(c/EPP, MaxPeriod). Companion theorems: C13_all_distributed for ANY "
+                 "state, disabled epochs, genesis / fresh-start consistency, catch-up and waiting lemmas for inconsistent "
+                 "counters together with two _refuted theorems showing the closed form is false there, and "
+                 "C13_sub_unit_provision_panics (a reported defect: provision in (0,1) unibi panics the hook). Default "
+                 "parameters are re-printed from the linked packages on every run and proved to give >= 1 unibi per epoch in "
+                 "all 96 periods, so edit-free histories from the default genesis follow the schedule unconditionally. The model "
+                 "is compared with the real keepers on generated histories and the proved-sound schedule checker is evaluated "
+                 "on the implementation traces."),
         "design_ref": "DESIGN.md §5 C13",
     },
-    "level_note": "",
-    "technique": "Coq proof (refinement of the code's bookkeeping to the closed-form schedule, by induction over histories) + "
-                 "differential correspondence on keeper traces",
+    "level_note": ("Hypotheses: Consistent start (necessary: two _refuted theorems; established by genesis and by the first "
+                   "disabled epoch of a never-started module), EPP/MaxPeriod fixed per history, provision positive at the "
+                   "scheduled period (>= 1 unibi while the sub-unibi panic exists on the tree, as probed by the driver), valid "
+                   "proportions, empty module account, numbers < 2^62, no LegacyDec overflow, sudo root present. The polynomial "
+                   "evaluation (Lib/Dec.v) is shared by model and schedule: its agreement with Go is correspondence evidence, "
+                   "not a theorem. Trusted: Coq kernel + vm_compute, Lib/Dec.v, the driver's balance snapshots, "
+                   "trace->Coq rendering, harness/gen/c13 (prints constants of the linked packages)."),
+    "technique": "Coq proof (refinement of the code's epoch/skipped/period bookkeeping to the closed-form schedule, by "
+                 "induction over histories) + differential correspondence on keeper traces + generated default constants",
 }
